@@ -151,7 +151,7 @@ func c17Scenario(r *vf.Run, t *testing.T, id string, rng *rand.Rand) {
 		case 1:
 			e.H.SetDefault(&rt.RespPlan{Status: 200, Body: make([]byte, 5000), Gate: e.H.NewGate()})
 		case 2:
-			e.H.SetDefault(&rt.RespPlan{Status: 200, Body: make([]byte, 70000), Sleep: 3 * time.Second, Stream: 2, ReadChunk: 1000})
+			e.H.SetDefault(&rt.RespPlan{Status: 200, Body: make([]byte, 70000), Sleep: 3 * time.Second, Stream: 2 + rng.Intn(2), ReadChunk: 1000})
 		}
 		hello := append([]byte(wire.Preface), rt.SettingsFrame()...)
 		frames, reqs := recordClientStream(rng, e.P, id, k, g)
@@ -162,6 +162,13 @@ func c17Scenario(r *vf.Run, t *testing.T, id string, rng *rand.Rand) {
 			}
 			if handlerMode == 2 {
 				pl.Sleep = time.Duration(rng.Intn(5000)) * time.Millisecond
+				if rng.Intn(2) == 0 && len(pl.Body) > 0 {
+					// produced by a writer goroutine (SetBodyStreamWriter), and larger than the peer's window now and then
+					pl.Stream = 3
+					if rng.Intn(2) == 0 {
+						pl.Body = make([]byte, 70000+rng.Intn(50000))
+					}
+				}
 			}
 			if rng.Intn(25) == 0 {
 				pl.Panic = true
@@ -197,7 +204,29 @@ func c17Scenario(r *vf.Run, t *testing.T, id string, rng *rand.Rand) {
 			fr := append([][]byte{}, frames...)
 			for m := 1 + rng.Intn(3); m > 0 && len(fr) > 0; m-- {
 				i := rng.Intn(len(fr))
-				switch op := rng.Intn(8); op {
+				switch op := rng.Intn(9); op {
+				case 8: // structure-aware: hostile HPACK appended to (or replacing) a header block fragment
+					c := append([]byte{}, fr[i]...)
+					if len(c) >= 9 && (c[3] == wire.THeaders || c[3] == wire.TContinuation) && c[4]&(wire.FPadded|wire.FPriority) == 0 {
+						nasty := [][]byte{
+							{0x00, 0x7f, 0x80, 0x80, 0x80, 0x80, 0x80, 0x80, 0x80, 0x80, 0x80, 0x01},       // name length with bit 63 set
+							{0x00, 0x01, 'a', 0x7f, 0x81, 0x80, 0x80, 0x80, 0x80, 0x80, 0x80, 0x80, 0x80, 0x01}, // value length 2^63+...
+							{0x00, 0xff, 0xff, 0xff, 0xff, 0xff, 0xff, 0xff, 0xff, 0xff, 0xff, 0x7f},          // huffman-flagged length, 11 continuation octets
+							{0xff, 0xff, 0xff, 0xff, 0xff, 0xff, 0xff, 0xff, 0xff, 0xff, 0x01},                // index 2^64-ish
+							{0x80},                                     // index 0
+							{0x3f, 0xff, 0xff, 0xff, 0xff, 0xff, 0x7f}, // table size update far above the limit
+							{0x40, 0x85, 0xff, 0xff, 0xff, 0xff, 0xff, 0x00}, // huffman name ending in EOS-like padding
+							{0x00, 0x00, 0x00},                         // empty name, empty value
+						}[rng.Intn(8)]
+						body := c[9:]
+						if rng.Intn(2) == 0 {
+							body = nil
+						}
+						body = append(append([]byte{}, body...), nasty...)
+						c = wire.Frame(nil, c[3], c[4], uint32(c[5]&0x7f)<<24|uint32(c[6])<<16|uint32(c[7])<<8|uint32(c[8]), body, -1)
+					}
+					fr[i] = c
+					class += "K"
 				case 7: // structure-aware: a HEADERS/DATA frame re-flagged PADDED (+PRIORITY) with a PRNG pad length octet
 					c := append([]byte{}, fr[i]...)
 					if len(c) > 9 && (c[3] == wire.THeaders || c[3] == wire.TData) {
@@ -299,6 +328,18 @@ func c17Scenario(r *vf.Run, t *testing.T, id string, rng *rand.Rand) {
 				b = append(b, [][]byte{rt.RstStream(next+100, 8), rt.WindowUpdate(next+100, 5), wire.Frame(nil, wire.TData, 0, next+100, []byte("idle"), -1), rt.Priority(next+100, next+100, false, 1), rt.WindowUpdate(0, 1<<31-1), rt.WindowUpdate(0, 1<<31-1)}[rng.Intn(6)]...)
 				b = append(b, rt.WindowUpdate(0, 1<<31-1)...)
 				class += "+connerr"
+				if rng.Intn(2) == 0 {
+					// and the peer goes on: more frames than the hand-over queue between the read loop and the stream
+					// loop holds, so that the read loop is waiting for room in it when the stream loop gives up
+					for i := 0; i < 150+rng.Intn(400); i++ {
+						if i%3 == 2 {
+							b = append(b, rt.Concat(rt.HeaderFrames(next+200+uint32(2*i), reqBlock(e.P, next+200+uint32(2*i), "late"), nil, -1, nil, true))...)
+						} else {
+							b = append(b, rt.WindowUpdate(0, 1)...)
+						}
+					}
+					class += "+more"
+				}
 			}
 			write(b)
 			time.Sleep(time.Duration(rng.Intn(3000)) * time.Millisecond)
@@ -332,6 +373,11 @@ func c17Scenario(r *vf.Run, t *testing.T, id string, rng *rand.Rand) {
 			time.Sleep(20 * time.Second)
 			rt.Wait()
 			leaked = rt.GoroutinesOf(id, "github.com/dgrr/http2.")
+		}
+		if w := rt.GoroutinesOf(id, "fasthttp.NewStreamReader"); len(w) > 0 && returned {
+			// a response produced with SetBodyStreamWriter runs on a goroutine fasthttp starts; it ends when the body is
+			// read to its end or closed, so a connection that goes away has to close the bodies it still holds
+			fail("goroutine-leak", fmt.Sprintf("family %s: ServeConn returned but %d response-writer goroutine(s) (SetBodyStreamWriter) of the connection are still waiting for somebody to read or close their body:\n%s", family, len(w), strings.Join(w, "\n")))
 		}
 		if !returned {
 			fail("serve-did-not-return", fmt.Sprintf("family %s: 15 virtual seconds after the peer disconnected ServeConn has not returned. SUT goroutines:\n%s", family, strings.Join(rt.GoroutinesOf(id, "github.com/dgrr/http2."), "\n")))
